@@ -4,6 +4,7 @@ package harness
 // Every random choice goes through rapid's bit stream.
 
 import (
+	"bytes"
 	"math"
 	"strings"
 
@@ -67,6 +68,13 @@ func drawAlphabet(t *rapid.T, withNul bool) []byte {
 			out = append(out, pool[1])
 		}
 	}
+	if db := dictSmall(1, 255); len(db) > 0 && drawInt(t, 0, 2, "adict") == 0 {
+		// a byte value that the library's source mentions (or a neighbour of one)
+		b := byte(pick(t, db, "adictb"))
+		if !bytes.Contains(out, []byte{b}) {
+			out = append(out, b)
+		}
+	}
 	if withNul {
 		out = append(out, 0x00)
 	}
@@ -84,7 +92,12 @@ func stemOf(n int, seed byte) []byte {
 // drawStems draws a family of stems that diverge at interesting offsets.
 func drawStems(t *rapid.T) [][]byte {
 	n := drawInt(t, 1, 3, "nstems")
-	base := stemOf(pick(t, []int{0, 0, 3, 9, 10, 11, 12, 20, 33, 15, 16, 31, 32, 63, 64, 127, 128, 300}, "stemlen"), byte(drawInt(t, 0, 5, "stemseed")))
+	stemLen := pick(t, []int{0, 0, 3, 9, 10, 11, 12, 20, 33, 15, 16, 31, 32, 63, 64, 127, 128, 300}, "stemlen")
+	if dl := dictSmall(2, 5000); len(dl) > 0 && drawInt(t, 0, 3, "stemdict") == 0 {
+		// key lengths next to a constant of the library's source: the stem leaves 0..2 bytes for the suffix
+		stemLen = max(0, pick(t, dl, "stemdictlen")-drawInt(t, 0, 2, "stemdictsuf"))
+	}
+	base := stemOf(stemLen, byte(drawInt(t, 0, 5, "stemseed")))
 	stems := [][]byte{base}
 	for len(stems) < n {
 		v := clone(base)
@@ -123,7 +136,7 @@ func bytesUniverse(t *rapid.T, k Kind, profile string) *universe {
 	case "giant":
 		// keys around the 8-bit and 16-bit length boundaries (a length or path-length field narrowed
 		// "to save space" only shows with such keys)
-		l := pick(t, []int{255, 256, 257, 65535, 65536, 65537, 70000}, "giantlen")
+		l := pick(t, []int{255, 256, 257, 511, 512, 513, 1023, 1024, 1025, 4095, 4096, 4097, 65535, 65536, 65537, 70000}, "giantlen")
 		stem := make([]byte, l)
 		for i := range stem {
 			stem[i] = 'a' + byte(i%7)
@@ -142,6 +155,29 @@ func bytesUniverse(t *rapid.T, k Kind, profile string) *universe {
 			return append(clone(base), pick(t, tails, "gianttail")...)
 		}
 	case "deep":
+		if drawInt(t, 0, 3, "chain") == 0 {
+			// chain: every key is a prefix of one long pattern, so each stored key hangs off the path
+			// of the next longer one and the tree gets as deep as there are keys (fixed-size descent
+			// stacks, recursion limits and depth counters of narrow types only show here)
+			l := pick(t, []int{50, 130, 260, 600}, "chainlen")
+			pat := make([]byte, l)
+			for i := range pat {
+				pat[i] = "abcab"[i%5] + byte(i/97)
+			}
+			u.profile = "chain"
+			u.draw = func(t *rapid.T) []byte {
+				return clone(pat[:drawInt(t, 0, l, "chn")])
+			}
+			u.bulk = func(t *rapid.T, n int) [][]byte {
+				var out [][]byte
+				first := drawInt(t, 0, l, "chb0")
+				for i := 0; i < n; i++ {
+					out = append(out, clone(pat[:(first+i)%(l+1)]))
+				}
+				return out
+			}
+			break
+		}
 		u.draw = func(t *rapid.T) []byte {
 			n := drawInt(t, 0, 40, "deeplen")
 			key := make([]byte, n)
@@ -228,12 +264,37 @@ func bytesUniverse(t *rapid.T, k Kind, profile string) *universe {
 		}
 		suffixes := []string{"", "x", "y"}
 		mk := func(i int, suf string) []byte { return []byte(stem + string(rune(base+i)) + suf) }
+		// second level: under the last / first character of the window a second window of characters
+		base2, width2 := 0, 0
+		if drawInt(t, 0, 2, "tf2") == 0 {
+			base2 = pick(t, []int{0x4E00, 0x5200, 0x0430, 'a'}, "tfbase2")
+			width2 = pick(t, []int{6, 20, 60}, "tfw2")
+			if base2 == 0x0430 || base2 == 'a' {
+				width2 = min(width2, 24)
+			}
+			u.profile = "textfan2"
+		}
+		mk2 := func(i, j int, suf string) []byte {
+			return []byte(stem + string(rune(base+i)) + string(rune(base2+j)) + suf)
+		}
+		thub := func(t *rapid.T) int { return pick(t, []int{width - 1, width - 1, 0, width / 2}, "thub") }
 		u.draw = func(t *rapid.T) []byte {
+			if width2 > 0 && drawInt(t, 0, 1, "tlvl2") == 0 {
+				return mk2(thub(t), drawInt(t, 0, width2-1, "tfj"), pick(t, suffixes, "tfs"))
+			}
 			return mk(drawInt(t, 0, width-1, "tfi"), pick(t, suffixes, "tfs"))
 		}
 		u.bulk = func(t *rapid.T, n int) [][]byte {
 			var out [][]byte
 			suf := pick(t, suffixes, "tbs")
+			if width2 > 0 && drawInt(t, 0, 1, "tblvl2") == 0 {
+				i := thub(t)
+				first := drawInt(t, 0, width2-1, "tb0")
+				for j := 0; j < n && j < width2; j++ {
+					out = append(out, mk2(i, (first+j)%width2, suf))
+				}
+				return out
+			}
 			first := drawInt(t, 0, width-1, "tb0")
 			for i := 0; i < n && i < width; i++ {
 				out = append(out, mk((first+i)%width, suf))
@@ -413,12 +474,17 @@ func numUniverse(t *rapid.T, k *numKind) *universe {
 		return k.Canon(rawOf(v))
 	}
 	u.draw = func(t *rapid.T) []byte {
-		switch weighted(t, []int{12, 3, 1}, "nsrc") {
+		switch weighted(t, []int{12, 3, 1, 2}, "nsrc") {
 		case 0:
 			c := pick(t, cl, "cl")
 			return mk(c, drawInt(t, 0, c.width-1, "cw"), pick(t, c.lows, "cl_low"))
 		case 1:
 			return k.Canon(rawOf(pick(t, bounds, "bound")))
+		case 3:
+			// a constant of the library's source, or what a bit operation or two make of it
+			if loadDict(); len(dictVals) > 0 {
+				return k.Canon(rawOf(pick(t, dictDerived(pick(t, dictVals, "dictc"), k.width), "dictd")))
+			}
 		}
 		return k.Canon(rawOf(rapid.Uint64().Draw(t, "rnd")))
 	}
